@@ -9,7 +9,7 @@ CHECKS = {
          "trusts the reference codec written from the protocol description and bytes/tokio-util", "DESIGN.md §3 C03"),
 }
 CHECKS["C04"] = ("exploration", "property-based testing with a reference wire parser (proptest): generated schemes x generated API call sequences on the real client session over a recording in-memory transport; erase-padding equality",
-         "Generated padding schemes (everything the scheme parser accepts, sizes 1..2^63-1) and call sequences (incl. answers to a peer's keep-alive requests), also over transports that accept only short writes or hold only a few hundred bytes in flight while a second writer (the answer to a keep-alive request) is active; after every call the recorded wire must parse under the reference codec and, with padding erased, equal the reference encoding of the submitted frames. Sampling.",
+         "Generated padding schemes (everything the scheme parser accepts, sizes 1..2^63-1) and call sequences (incl. answers to a peer's keep-alive requests), also over transports that accept only short writes or hold only a few hundred bytes in flight while a second writer (the answer to a keep-alive request) is active, or that keep everything until flush; after every call the recorded wire must parse under the reference codec and, with padding erased, equal the reference encoding of the submitted frames. Sampling.",
          "trusts the reference codec/scheme reader, tokio's paused clock and current-thread scheduler, the harness pipe", "DESIGN.md §3 C04")
 CHECKS["C05"] = ("exploration", "property-based testing against a nondeterministic reference acceptor for packet shapes (proptest)",
          "Generated satisfiable schemes and single-writer call sequences (local writes and answers to the peer's keep-alive requests) with payload sizes around the range bounds; each packet's logged write lengths must be explained by the reference acceptor for its line; preamble padding and server-side no-padding checked in separate families. Sampling.",
@@ -25,7 +25,7 @@ _c("C02", "exploration", "model-based property testing (proptest): generated fra
    "Generated SYN/PSH/FIN/SYNACK histories over a small id pool (stray, stale, duplicate, reused ids) against a real session in either role (client role also with foreign frames still in flight while open_stream runs under forced pre-emptions; local sends on any instance judged at the scripted peer), plus 2-8 concurrent streams between two real sessions; every byte is keyed by the stream instance it belongs to. Sampling.",
    "trusts the reference codec and the instance model; frames still in flight when an id is opened are not counted as stray (they are let to be processed first)")
 _c("C06", "exploration", "property-based testing (proptest) of authenticate_client over a fragmenting reader with exhaustive small grids (256 bit flips, 32 prefixes, every truncation length) + end-to-end negatives against the real server on loopback + libFuzzer target auth_preamble",
-   "iff-predicate on acceptance, exact consumed-bytes count for every declared padding length (all 65536 in thorough), termination on EOF. End to end: a reference client over TLS sends a wrong / truncated / correct preamble (optionally followed by 6-65 s of silence; also against servers configured with passwords that have blanks around them, presenting hashes of related passwords) and then a complete valid session; a target connection, a stream or any application byte back is allowed iff the hash was right.",
+   "iff-predicate on acceptance, exact consumed-bytes count for every declared padding length (all 65536 in thorough), termination on EOF. End to end: a reference client over TLS sends a wrong / truncated / correct preamble (optionally followed by 6-65 s of silence, or cut in two with 3-25 s between the pieces, or preceded by bytes that are not the hash; also against servers configured with passwords that have blanks around them, presenting hashes of related passwords) and then a complete valid session; a target connection, a stream or any application byte back is allowed iff the hash was right.",
    "trusts sha2, the harness pipe and the reference client; kernel loopback for the end-to-end family")
 _c("C08", "exploration", "property-based testing (proptest): scripted reference peer sends data+FIN back-to-back to a real session; history invariants (EOF after data, reverse direction alive, state released)",
    "Generated per-stream frame lists followed by FIN in one transport write with generated fragmentation, late/early readers with tiny buffers, reverse traffic before/after the FIN, siblings; both roles. Sampling. Server side with a reference client that sends FIN, also before the SYNACK (srv_fin: the target must see every byte and then end-of-stream, not a reset). End to end (Lab-S): who closes or half-closes first (application, target) with amounts in flight in both directions through SOCKS5 -> client -> server -> target; P2/P3 (all data before the end, reverse direction alive) are armed, P1 (EOF arrives) is the listed known finding.",
@@ -37,13 +37,13 @@ _c("C10", "exploration", "property-based testing (proptest) in virtual time: rea
    "1-6 racing opens (sequentially started or truly overlapping in open_stream over small-capacity transports with forced pre-emptions), answers (ok / error text / none) at 0, 1 ms, 29.999 s, 30 s, 30.001 s, duplicated, stray, cross-addressed, long / multi-byte / invalid UTF-8 reasons, peer versions 0-2, session death during the wait (the call must end when the session dies, not at the timeout). Sampling.",
    "an answer exactly at the 30 s deadline may go either way; H3 gives access to the pool")
 _c("C11", "exploration", "schedule exploration by property-based testing (proptest): generated yield counts at instrumented points + spawn order + transport back-pressure; invariants over the reference-parsed wire vs submission logs",
-   "2-5 writer tasks on one fresh session doing what real callers do (incl. 65530-65540-byte sends), transport stalls of up to 61 s mid-history, the session's own keep-alive monitor as one more writer; wire must parse, equal the submitted multiset, keep per-task FIFO, start with the settings frame and keep SYN before PSH. Plus simultaneous first requests on a real client with an empty pool on a multi-threaded runtime with runtime threads stalled at trace events (fresh_burst). Sampling of schedules at hook points and stall points only.",
+   "2-5 writer tasks on one fresh session doing what real callers do (incl. 65530-65540-byte sends), transport stalls of up to 61 s mid-history, the session's own keep-alive monitor as one more writer, crowds of 20-150 tasks opening on a fresh session before any of them writes; wire must parse, equal the submitted multiset, keep per-task FIFO, start with the settings frame and keep SYN before PSH. Plus simultaneous first requests on a real client with an empty pool on a multi-threaded runtime with runtime threads stalled at trace events (fresh_burst). Sampling of schedules at hook points and stall points only.",
    "schedules are explored at H1 points, transport Pendings and spawn order on a single-threaded runtime, and by thread stalls at trace events on the multi-threaded loopback runtime; data races below the statement level are out of reach")
 _c("C12", "exploration", "model-based property testing (proptest) in virtual time: generated pool histories vs a validity predicate evaluated around every reaper tick",
-   "Add/Get/Kill/Advance/Cleanup histories on the real SessionPool with in-memory sessions (some with slow-closing transports; cleanup_expired racing with get_idle_session); predicate: never a closed session from Get, only expired sessions reaped, never below min idle, at most min idle expired survivors, idle_count agrees. Lab-S: a real client with 1 s / 2 s timers holding streams across reaper ticks (in-use sessions must survive: listed known finding, keyed on the in-use model) and bursts of 2-24 simultaneous requests on an empty pool (idle_count and hand-outs vs the model of dialled-and-not-taken sessions).",
+   "Add/Get/Kill/Advance/Cleanup histories on the real SessionPool with in-memory sessions (some with slow-closing transports; whole-second and fractional idle timeouts; cleanup_expired racing with get_idle_session); predicate: never a closed session from Get, only expired sessions reaped, never below min idle, at most min idle expired survivors, idle_count agrees. Lab-S: a real client with 1 s / 2 s timers holding streams across reaper ticks (in-use sessions must survive: listed known finding, keyed on the in-use model) and bursts of 2-24 simultaneous requests on an empty pool (idle_count and hand-outs vs the model of dialled-and-not-taken sessions).",
    "which survivor is kept is left open; exact-boundary ages may go either way")
 _c("C14", "exploration", "property-based testing (proptest) in virtual time over an (interval, timeout) grid x peer behaviours vs a reference spec of allowed close instants",
-   "Real client session with heartbeat config against the real server session (delayed pipes) or a scripted peer that falls silent at generated instants, with/without traffic and send-buffer exhaustion; safe/detect/answer clauses on sampled is_closed. Plus a real-time glue family: the real Client (settings 1-3 s) against the reference server answering always, never, or only the first n requests.",
+   "Real client session with heartbeat config against the real server session (delayed pipes) or a scripted peer that falls silent at generated instants, with/without traffic and send-buffer exhaustion, requests unpadded or padded and pushed piecewise through a 64-byte pipe; safe/detect/answer clauses on sampled is_closed. Plus a real-time glue family: the real Client (settings 1-3 s) against the reference server answering always, never, or only the first n requests.",
    "is_closed sampled every 100 ms virtual; 150 ms slack on the detect bound")
 _c("C17", "exploration", "property-based differential testing (proptest) of the request parser/rewriter against a reference HTTP reading; grammar-based request generator",
    "Generated well-formed proxy requests (all target forms, IPv6, ports, header sets up to ~64 KiB, Host in any case/position, body prefix) through the private parse+rewrite functions (H6). Lab-S family `proxy`: the same request grammar in generated TCP segmentations (cuts inside the header terminator, header sizes at multiples of the 1 KiB read size, bursts of 8 KiB - 300 KB behind the header) against the real HTTP listener -> client -> server -> recording origin; CONNECT: 200 only after the tunnel exists, 502 otherwise, early data forwarded; libFuzzer target http_rewrite.",
@@ -70,7 +70,7 @@ _c("C19", "exploration", "property-based testing (proptest) of process-level his
    "one child process per history; the reference server's plaintext view; packets delimited by the child's known call pattern")
 
 _c("C20", "exploration", "mutational property-based testing (proptest) of established real sessions and parsers with panic/allocation/quiescence/watchdog monitors and a sibling-stream oracle; coverage-guided fuzzing (libFuzzer via cargo-fuzz) of the same oracles in the thorough tier",
-   "Generated frame sequences (every command x role, settings/scheme payloads) mutated by bit flips, truncation, duplication, reordering and length corruption, delivered in fragments to a real session with a sibling stream; arbitrary bytes in arbitrary chunking into the destination/UoT parsers; hostile and mutated header blocks into the HTTP front-end's header-end finder and parse+rewrite functions; mutated requests against the real HTTP listener with a neighbour. libFuzzer targets session_bytes_server/client, socks_addr_stream, uot_stream, http_head_raw run bounded campaigns in thorough; their corpus is replayed in quick.",
+   "Generated frame sequences (every command x role, settings/scheme payloads) mutated by bit flips, truncation, duplication, reordering and length corruption, delivered in fragments to a real session with a sibling stream; arbitrary bytes in arbitrary chunking into the destination/UoT parsers; hostile and mutated header blocks into the HTTP front-end's header-end finder and parse+rewrite functions; mutated requests against the real HTTP listener with a neighbour; stray / stale / duplicate frames while the session opens streams of its own under forced pre-emptions (C02's history family). libFuzzer targets session_bytes_server/client, socks_addr_stream, uot_stream, http_head_raw run bounded campaigns in thorough; their corpus is replayed in quick.",
    "panics are counted by a process-wide hook; a stuck case is re-run in a child process before it is called a violation; fuzzed destinations never reach a socket (no dial handler in Lab-M; listener cases are confined to harness-owned targets)")
 
 NOT_YET = {}
